@@ -94,6 +94,18 @@ Theorem C49_castem_exact_1d :
 Proof. exact castem_exact_1d. Qed.
 Print Assumptions C49_castem_exact_1d.
 
+(* alternate secant is exact on scalar affine maps from any two distinct iterates *)
+Theorem C49_altsecant_exact_1d :
+  forall (c xs x0 x1 : R) (trig : nat) (thr : R) (iter : nat) (st : st2), 0 <= thr -> (trig <=? iter)%nat = true -> p_u st = [G1 c xs x0] -> p_r st = [- (x0 - G1 c xs x0)] -> thr < (- (x1 - G1 c xs x1) - - (x0 - G1 c xs x0)) * (- (x1 - G1 c xs x1) - - (x0 - G1 c xs x0)) -> snd (altsecant_step RF trig thr st iter [G1 c xs x1] [x1 - G1 c xs x1]) = [xs].
+Proof. exact altsecant_exact_1d. Qed.
+Print Assumptions C49_altsecant_exact_1d.
+
+(* crossed secant: same *)
+Theorem C49_crossedsecant_exact_1d :
+  forall (c xs x0 x1 : R) (trig : nat) (thr : R) (iter : nat) (st : st2), 0 <= thr -> (trig <=? iter)%nat = true -> p_u st = [G1 c xs x0] -> p_r st = [- (x0 - G1 c xs x0)] -> thr < (- (x1 - G1 c xs x1) - - (x0 - G1 c xs x0)) * (- (x1 - G1 c xs x1) - - (x0 - G1 c xs x0)) -> snd (crossedsecant_step RF trig thr st iter [G1 c xs x1] [x1 - G1 c xs x1]) = [xs].
+Proof. exact crossedsecant_exact_1d. Qed.
+Print Assumptions C49_crossedsecant_exact_1d.
+
 (* Anderson weights for two stored fields: sum to 1 and make w0 D0 + w1 D1 orthogonal to D0 - D1 (least squares), any dimension *)
 Theorem C49_anderson2_optimal :
   forall (D0 D1 : list R) (w0 w1 : R), anderson_weights RF [D0; D1] = Some [w0; w1] -> w0 + w1 = 1 /\ w0 * dot RF D0 D0 + w1 * dot RF D0 D1 = w0 * dot RF D0 D1 + w1 * dot RF D1 D1.
